@@ -37,7 +37,10 @@ Chokes  == [c \in Comps |-> ChokePairs(c)]
 ClassSet(c) == Range(ClassesOf(c))
 
 AllPairs  == UNION {{<<c, cls, p[1], p[2]>> : cls \in ClassSet(c), p \in UPairs[c]} : c \in Comps}
-AllChokes == UNION {{<<c, q[1], q[2]>> : q \in Chokes[c]} : c \in Comps}
+\* the helpers a Broker method reaches run in the broker's goroutines, some time after the call: they are probed
+\* when they fire, but not REQUIRED (the queue / deque components reach the same helpers synchronously)
+AsyncComps == {"broker." \o k : k \in BrokerKinds}
+AllChokes == UNION {{<<c, q[1], q[2]>> : q \in Chokes[c]} : c \in Comps \ AsyncComps}
 
 TInit == /\ l = 1 /\ todoPairs = AllPairs /\ todoChokes = AllChokes /\ bad = {}
 
